@@ -470,6 +470,11 @@ class Balancer:
         high, low, inner = truism.args[0].args
         inner_size = len(inner)
 
+        if truism.op in {"SLT", "SLE", "SGT", "SGE"}:
+            # a signed comparison reads the top bit of the slice as a sign; none of the rewrites below keeps that
+            # (with x in [0, 7], x[2:0] <s 0 holds for x = 4 but x <s 0 does not)
+            return truism
+
         if high < inner_size - 1:
             left_msb = inner[inner_size - 1 : high + 1]
             left_msb_zero = claripy.backends.vsa.is_true(left_msb == 0)
@@ -559,6 +564,10 @@ class Balancer:
         shift_amount_expr = lhs.args[1]
         expr = lhs.args[0]
 
+        if truism.op in {"SLT", "SLE", "SGT", "SGE"}:
+            # the shift moves another bit into the sign position: (x << 1) <s 0 holds for x = 4 at 4 bits
+            return truism
+
         shift_amount_values = claripy.backends.vsa.eval(shift_amount_expr, 2)
         if len(shift_amount_values) != 1:
             return truism
@@ -575,7 +584,8 @@ class Balancer:
             # we can remove the __lshift__: no set bit of expr is shifted out, and the bits shifted in are zero on
             # both sides
 
-            return Bool(truism.op, (expr, rhs >> shift_amount))
+            # (a logical shift: >> on a bit-vector is arithmetic and would fill the vacated bits of rhs with its top bit)
+            return Bool(truism.op, (expr, claripy.LShR(rhs, shift_amount)))
 
         return truism
 
